@@ -1592,10 +1592,19 @@ class Checker:
             "set_order_iterations_reordered": c["shim_reordered"],
             "single_preemption_sweep": getattr(self, "sweep", None),
             "isolated_baselines": getattr(self, "baselines", None),
+            "stack_depth_sweep": getattr(self, "depth", None),
+            "capacity_knobs_found_on_this_tree": getattr(self, "knobs", None),
+            "sweeps_with_shrunk_capacities": [
+                {k: v for k, v in kb.items() if k != "samples"} for kb in getattr(self, "sweep_knobs", [])],
+            "edition_boundary_year_documents_in_hash_contexts": getattr(self, "boundary_docs", 0),
             "blocking_lock_acquires_turned_into_scheduler_yields": c.get("lock_waits", 0),
             "forced_window_hits": dict(sorted(self.window_hits.items())),
             "faults_injected": {
                 "cancellations_fired": c["cancellations"],
+                "stack_exhaustion_calls_that_failed_with_RecursionError": (getattr(self, "depth", None) or {}).get(
+                    "calls_that_raised_RecursionError", 0),
+                "stack_exhaustion_calls_that_returned_and_were_judged": (getattr(self, "depth", None) or {}).get(
+                    "calls_that_returned", 0),
                 "cancellation_sites": dict(sorted(self.cancel_sites.items())),
                 "hash_contexts_completed": getattr(self, "ctx_done", 0),
                 "hash_seeds": getattr(self, "hash_seeds", [])[:16],
@@ -1615,7 +1624,10 @@ class Checker:
             "components": {"real": ["eyecite (all modules)", "re", "regex", "pyahocorasick", "lxml",
                                     "fast_diff_match_patch", "libhyperscan", "CPython threads"],
                            "simulated": ["which thread runs next", "set iteration order",
-                                         "process hash seed", "cancellation instants", "calendar date"],
+                                         "process hash seed", "cancellation instants", "calendar date",
+                                         "free stack frames at the call", "capacities of module-level caches",
+                                         "threading.Lock/RLock/Event/Condition waits (yield the baton)",
+                                         "locale, time zone and working directory of a fresh interpreter"],
                            "stubbed": []},
             "known_findings_printed": self.known_printed,
         }
@@ -1638,6 +1650,8 @@ ASSUMPTIONS = [
     "a thread switch at a line boundary and an asynchronous exception at a line boundary are always realisable in CPython, so every simulated schedule is a real one",
     "the set-order shim sees only set(...) calls resolved through module globals; its disagreements are reported only after confirmation under real PYTHONHASHSEED values",
     "the calendar is pinned for the whole batch (eyecite reads it at import and in Edition.includes_year)",
+    "a call made with few free stack frames may fail with RecursionError (the caller's environment); only calls that return are judged",
+    "shrinking the bound of a module-level container or an lru_cache is property-preserving if results do not depend on history -- which is the property itself",
     "sampling, not proof: a clean batch is evidence for the seeds explored",
 ]
 
